@@ -46,6 +46,12 @@ func (in *Interp) expr(e ast.Expr) Value {
 				}
 				return &FuncVal{Bound: fn, RecvCell: rc, RecvVal: rv}
 			}
+			if _, isIface := sel.Recv().Underlying().(*types.Interface); isIface {
+				// a method value of an uninterpreted object (`block.Encrypt` of a cipher.Block): the object and the method
+				if o, ok := in.expr(x.X).(*Opaque); ok {
+					return &FuncVal{BoundOpaque: o, OpaqueMethod: fn.Name()}
+				}
+			}
 			in.fail(x, "method value")
 		}
 		if sel, ok := info.Selections[x]; ok && sel.Kind() == types.MethodExpr {
